@@ -10,7 +10,7 @@ from ..properties import (
     HashesProperty, IDProperty, ListProperty, Property, ReferenceProperty,
     SelectorProperty, StringProperty, TimestampProperty, TypeProperty,
 )
-from ..utils import NOW, _get_dict
+from ..utils import NOW, Precision, _get_dict
 from .base import _STIXBase20
 from .vocab import HASHING_ALGORITHM
 
@@ -25,7 +25,7 @@ def _should_set_millisecond(cr, marking_type):
             return True
         else:
             return False
-    if getattr(cr, 'precision', None) == 'millisecond':
+    if getattr(cr, 'precision', None) == Precision.MILLISECOND:
         return True
     # a datetime with a fractional second is written with a '.' too
     if getattr(cr, 'microsecond', 0):
